@@ -99,8 +99,8 @@ def prefetch_wrappers():
             out.append({'name': nm, 'op': 'prefetch_' + rw, 'type': 'void', 'scalar': True, 'K': None, 'prefetch': True, 'elem': 1,
                         'line': 'VW void %s(const void* p, std::size_t n) { avel::prefetch_%s<avel::%s>(p, n); }' % (nm, rw, lvl),
                         'params': ['const void*', 'std::size_t'], 'rtype': 'void'})
-            for tn, sz in (('std::uint32_t', 4), ('avel_verif_blob64', 64)):
-                nm = 'w_prefetch_%s_%s_%s' % (rw, lvl, 'u32' if sz == 4 else 'blob64')
+            for tn, sz in (('std::uint32_t', 4), ('avel_verif_blob64', 64), ('avel_verif_blob65', 65), ('avel_verif_blob200', 200)):
+                nm = 'w_prefetch_%s_%s_%s' % (rw, lvl, 'u32' if sz == 4 else 'blob%d' % sz)
                 out.append({'name': nm, 'op': 'prefetch_' + rw, 'type': tn, 'scalar': True, 'K': None, 'prefetch': True, 'elem': sz,
                             'line': 'VW void %s(const %s* p, std::size_t n) { avel::prefetch_%s<avel::%s, %s>(p, n); }' % (nm, tn, rw, lvl, tn),
                             'params': ['const %s*' % tn, 'std::size_t'], 'rtype': 'void'})
@@ -110,6 +110,8 @@ def prefetch_wrappers():
 PREFETCH_REPLAY = r'''
 #include "verif_prelude.hpp"
 struct avel_verif_blob64 { unsigned char b[64]; };
+struct avel_verif_blob65 { unsigned char b[65]; };
+struct avel_verif_blob200 { unsigned char b[200]; };
 #include <sys/mman.h>
 #include <csignal>
 #include <cstdio>
@@ -150,6 +152,7 @@ def prefetch_task(task):
         fn = mod.fns[meta['name']]
         cfg = configs.BY_NAME[task['cfg']]
         ex = symex.Executor(mod, intrin.Intrinsics(), assumptions=[])
+        ex.MAX_VISITS = PREFETCH_BOUND // 16 + 64      # unwinding bound: one iteration per cache line (>= 16 bytes) of at most PREFETCH_BOUND bytes
         rm, _ = harness.make_rm(None)
         st, mx_asm = harness.init_state(ex, rm)
         n = z3.BitVec('n', 64)
@@ -251,6 +254,48 @@ def prefetch_task(task):
     except symex.NotEncodable as e:
         res['status'] = 'not-encodable'
         res['detail'] = str(e)[:300]
+        if 'step limit' in str(e):
+            # unwinding assertion failed: some path does not leave the loop within the bound.  Does the real call return?
+            try:
+                cfg = configs.BY_NAME[task['cfg']]
+                h = hashlib.sha1(json.dumps([meta['name'], cfg.name, 'termination']).encode()).hexdigest()[:10]
+                outdir = os.path.join(replay.REPLAYS, task['prop'], '%s.%s.%s' % (meta['name'], cfg.name, h))
+                os.makedirs(outdir, exist_ok=True)
+                src = os.path.join(outdir, 'repro.cpp')
+                confirmed, details = False, {}
+                for nn in (1, 3):
+                    open(src, 'w').write(PREFETCH_REPLAY % {'line': meta['line'], 'name': meta['name'], 'ptype': meta['params'][0], 'off': 4096, 'n': nn, 'wild': 0x7f0000dead00})
+                    for cc, opt in (('clang++-14', '-O1'), ('g++', '-O2')):
+                        exe = os.path.join(outdir, 'repro.' + cc.replace('+', 'x'))
+                        cmd = [cc] + cfg.flags() + [opt, '-w', '-I' + os.path.join(build.HERE, 'cxx'), '-I' + build.repo_include(), src, '-o', exe]
+                        rr = subprocess.run(cmd, stdout=subprocess.PIPE, stderr=subprocess.PIPE, universal_newlines=True)
+                        if rr.returncode != 0:
+                            details[cc] = 'compile failed: ' + rr.stderr[-300:]
+                            continue
+                        try:
+                            out = subprocess.run([exe], stdout=subprocess.PIPE, stderr=subprocess.PIPE, universal_newlines=True, timeout=10, preexec_fn=replay._unlimit).stdout
+                        except subprocess.TimeoutExpired:
+                            out = 'TIMEOUT (no return within 10 s)'
+                        details['%s n=%d' % (cc, nn)] = out.strip()[:120]
+                        confirmed = confirmed or ('TIMEOUT' in out) or ('SIGNAL' in out) or ('MODIFIED' in out)
+                        try:
+                            os.unlink(exe)
+                        except OSError:
+                            pass
+                    if confirmed:
+                        break
+                sh = os.path.join(outdir, 'run.sh')
+                open(sh, 'w').write('#!/bin/sh\n# exit 1 if the call does not return within 10 s (or faults)\ncd "%s" && clang++-14 %s -O1 -w -I%s -I%s repro.cpp -o repro.bin && timeout 10 ./repro.bin; rc=$?; rm -f repro.bin; [ $rc -eq 0 ] && exit 0; exit 1\n'
+                                    % (outdir, ' '.join(cfg.flags()), os.path.join(build.HERE, 'cxx'), build.repo_include()))
+                os.chmod(sh, 0o755)
+                if confirmed:
+                    rec = {'kind': 'termination', 'desc': 'the call does not return: a loop is not left within the unwinding bound (symbolic execution) and the native call runs past 10 s',
+                           'inputs': ['n=%d' % nn, 'accessible buffer'], 'rm': 'RNE', 'replay': sh, 'confirmed': True, 'detail': details, 'solver': 'unwinding-assertion'}
+                    res['violations'].append(rec)
+                    res['status'] = 'violation'
+                    res['obligations'] += 1
+            except Exception:
+                res['detail'] += ' | termination replay failed: ' + traceback.format_exc()[-300:]
     except Exception:
         res['status'] = 'crash'
         res['detail'] = traceback.format_exc()[-1500:]
@@ -264,7 +309,7 @@ def prefetch(prop, tier, seed, a):
     t0 = time.time()
     budget = dict(check.BUDGET[tier])
     ladder = configs.check_ladder(build.REPO)
-    names = ['none', 'sse2', 'avx2', 'avx512'] if tier == 'quick' else [c.name for c in configs.ALL]
+    names = ['none', 'x86', 'popcnt', 'lzcnt', 'bmi', 'bmi2', 'sse2', 'avx2', 'avx512'] if tier == 'quick' else [c.name for c in configs.ALL]
     cfgs = [configs.BY_NAME[n] for n in names]
     if a.configs:
         cfgs = [configs.BY_NAME[c] for c in a.configs.split(',')]
@@ -315,6 +360,7 @@ ALLOC_ALIGNS = [1, 2, 4, 8, 16, 32, 64, 128, 4096]
 ALLOC_HDR = '''#ifndef AVEL_VERIF_ALLOC_HPP
 #define AVEL_VERIF_ALLOC_HPP
 #include <avel/Aligned_allocator.hpp>
+#include <memory>
 struct avel_verif_b3 { unsigned char b[3]; };
 struct avel_verif_b16 { unsigned char b[16]; };
 struct avel_verif_b64 { unsigned char b[64]; };
@@ -336,7 +382,17 @@ def alloc_wrappers(tier):
             line = ('VW void* %s(std::size_t n) { avel::Aligned_allocator<%s, %d> a; %s* p = a.allocate(n); avel_verif_havoc(p, n * sizeof(%s)); '
                     'a.deallocate(p, n); return p; }' % (nm, tn, A, tn, tn))
             out.append({'name': nm, 'line': line, 'op': 'alloc_roundtrip', 'type': tn, 'scalar': True, 'K': None, 'alloc': True,
-                        'elem': sz, 'align': A, 'params': ['std::size_t'], 'rtype': 'void*'})
+                        'elem': sz, 'align': A, 'params': ['std::size_t'], 'rtype': 'void*', 'atype': 'avel::Aligned_allocator<%s, %d>' % (tn, A)})
+    # the allocator a container really uses: rebound from Aligned_allocator<unsigned char, A> to another element type (must keep A)
+    for tn, sz, al in (('avel_verif_b64', 64, 1), ('std::uint64_t', 8, 8), ('avel_verif_b3', 3, 1)):
+        for A in (16, 32, 4096):
+            tag = '%s_a%d' % (tn.replace('std::', '').replace('_t', '').replace('avel_verif_', ''), A)
+            nm = 'w_alloc_rebind_' + tag
+            line = ('VW void* %s(std::size_t n) { typename std::allocator_traits<avel::Aligned_allocator<unsigned char, %d>>::template rebind_alloc<%s> a; '
+                    '%s* p = a.allocate(n); avel_verif_havoc(p, n * sizeof(%s)); a.deallocate(p, n); return p; }' % (nm, A, tn, tn, tn))
+            out.append({'name': nm, 'line': line, 'op': 'alloc_roundtrip', 'type': tn, 'scalar': True, 'K': None, 'alloc': True,
+                        'elem': sz, 'align': A, 'params': ['std::size_t'], 'rtype': 'void*',
+                        'atype': 'typename std::allocator_traits<avel::Aligned_allocator<unsigned char, %d>>::template rebind_alloc<%s>' % (A, tn)})
     return out
 
 
@@ -547,8 +603,8 @@ extern "C" void avel_verif_havoc(void* p, std::size_t bytes) { std::memset(p, 0x
 int main() {
     using T = %(tn)s;
     constexpr std::size_t A = %(A)d;
-    avel::Aligned_allocator<T, A> a;
-    std::vector<std::size_t> ns = {%(n)dull};
+    %(atype)s a;
+    std::vector<std::size_t> ns = {%(n)dull, 1, 2, 3, 5, 7, 13, 17, 31, 33, 63, 65, 100, 127, 129, 255, 257, 1000, 4097, 1, 9, 1, 21, 1, 45};
     std::vector<std::pair<T*, std::size_t>> live;
     for (std::size_t n : ns) {
         if (n > (1u << 22)) continue;
@@ -579,31 +635,36 @@ def alloc_replay(task, meta, cfg, cat, info, model, by):
     os.makedirs(outdir, exist_ok=True)
     open(os.path.join(outdir, 'verif_alloc.hpp'), 'w').write(ALLOC_HDR)
     src = os.path.join(outdir, 'repro.cpp')
-    open(src, 'w').write(ALLOC_REPLAY % {'tn': meta['type'], 'A': meta['align'], 'n': min(nn, 1 << 20)})
+    open(src, 'w').write(ALLOC_REPLAY % {'tn': meta['type'], 'A': meta['align'], 'n': min(nn, 1 << 20),
+                                         'atype': meta.get('atype') or 'avel::Aligned_allocator<T, A>'})
     exe = os.path.join(outdir, 'repro.bin')
     cmd = ['clang++-14'] + cfg.flags() + ['-O0', '-g', '-w', '-fsanitize=undefined,address', '-fno-sanitize-recover=all', '-I' + outdir,
                                           '-I' + build.repo_include(), src, '-o', exe]
-    rr = subprocess.run(cmd, stdout=subprocess.PIPE, stderr=subprocess.PIPE, universal_newlines=True)
+    # second build without sanitizers: ASan's heap aligns differently from glibc's, and alignment is the point of half the obligations
+    cmd2 = ['g++'] + cfg.flags() + ['-O1', '-w', '-I' + outdir, '-I' + build.repo_include(), src, '-o', exe]
     confirmed = False
     detail = {}
-    if rr.returncode != 0:
-        detail['compile'] = rr.stderr[-400:]
-    else:
+    for key, c in (('sanitizers', cmd), ('plain g++', cmd2)):
+        rr = subprocess.run(c, stdout=subprocess.PIPE, stderr=subprocess.PIPE, universal_newlines=True)
+        if rr.returncode != 0:
+            detail[key] = 'compile failed: ' + rr.stderr[-300:]
+            continue
         try:
             r2 = subprocess.run([exe], stdout=subprocess.PIPE, stderr=subprocess.PIPE, universal_newlines=True, timeout=120, preexec_fn=replay._unlimit)
             out, err, code = r2.stdout, r2.stderr, r2.returncode
         except subprocess.TimeoutExpired:
             out, err, code = '', 'timeout', -1
-        confirmed = code != 0
-        lines = [l for l in err.split('\n') if 'runtime error' in l or 'ERROR: AddressSanitizer' in l]
-        detail['sanitizers'] = (lines[0][-300:] if lines else out.strip()[:200])
+        confirmed = confirmed or code != 0
+        lines = [l for l in err.split('\n') if 'runtime error' in l or 'ERROR: AddressSanitizer' in l or 'free():' in l or 'corrupted' in l]
+        detail[key] = (lines[0][-300:] if lines else out.strip()[:200])
         try:
             os.unlink(exe)
         except OSError:
             pass
     sh = os.path.join(outdir, 'run.sh')
-    open(sh, 'w').write('#!/bin/sh\ncd "%s" && %s && ./repro.bin; rc=$?; rm -f repro.bin; [ $rc -eq 0 ] && exit 0; exit 1\n'
-                        % (outdir, ' '.join(cmd[:-3] + ['repro.cpp', '-o', 'repro.bin'])))
+    open(sh, 'w').write('#!/bin/sh\n# exit 1 if the violation reproduces (sanitized clang build, then plain g++ build)\ncd "%s" || exit 2\n%s && ./repro.bin; rc1=$?\n%s && ./repro.bin; rc2=$?\nrm -f repro.bin\n'
+                        '[ $rc1 -eq 0 ] && [ $rc2 -eq 0 ] && exit 0; exit 1\n'
+                        % (outdir, ' '.join(cmd[:-3] + ['repro.cpp', '-o', 'repro.bin']), ' '.join(cmd2[:-3] + ['repro.cpp', '-o', 'repro.bin'])))
     os.chmod(sh, 0o755)
     return {'kind': cat, 'desc': info, 'inputs': ['n=%d' % nn, 'T=%s' % meta['type'], 'A=%d' % meta['align']], 'rm': 'RNE', 'replay': sh,
             'confirmed': confirmed, 'detail': detail, 'solver': by}
@@ -727,6 +788,19 @@ def api_parity(prop, tier, kf):
             if sib in okn:
                 out.append({'cfg': cname, 'kind': 'parity:missing', 'wrapper': w, 'desc': '%s compiles for vec1x%s%s but not for %s: %s'
                             % (w['op'] + ('<%s>' % w['K'] if w.get('K') is not None else ''), m.group(2), m.group(3), w['type'], err[:160])})
+        # header-only library: a definition of an avel:: entity with strong linkage (lost inline / AVEL_FINL on a full specialisation, a non-inline
+        # variable) is emitted by every translation unit that includes the header, so two such units do not link
+        for line in text.split('\n'):
+            if (line.startswith('define ') or re.match(r'^@_ZN4avel\S* = ', line)) and '_ZN4avel' in line.split('(')[0]:
+                head = line.split('(')[0] if line.startswith('define ') else line.split('=', 1)[1][:60]
+                if not re.search(r'\b(linkonce_odr|linkonce|weak_odr|weak|internal|private|available_externally|external)\b', head):
+                    sname = re.search(r'@(_ZN4avel\w+)', line).group(1)
+                    try:
+                        dem = subprocess.run(['c++filt', sname], stdout=subprocess.PIPE, universal_newlines=True).stdout.strip()
+                    except Exception:
+                        dem = sname
+                    out.append({'cfg': cname, 'kind': 'parity:odr', 'wrapper': {'name': sname, 'op': 'odr', 'type': '-', 'line': ''}, 'symbol': sname,
+                                'desc': '%s is emitted with strong linkage by every translation unit that includes the headers: two such units do not link' % dem})
         # referenced-but-undefined avel functions, attributed to the wrappers that (transitively, after inlining) call them
         und = set(re.findall(r'^declare [^@\n]*@(_ZN4avel\w+)', text, re.M))
         if und:
@@ -765,7 +839,13 @@ def api_parity(prop, tier, kf):
             os.makedirs(outdir, exist_ok=True)
             open(os.path.join(outdir, 'repro.cpp'), 'w').write('#include "verif_prelude.hpp"\n%s\nint main() { return 0; }\n' % w.get('line', ''))
             sh = os.path.join(outdir, 'run.sh')
-            open(sh, 'w').write('#!/bin/sh\n# exit 1 if the call does not compile and link against the real headers\ncd "%s" && clang++-14 %s -O1 -w -I%s -I%s repro.cpp -o repro.bin 2>&1 | tail -4; '
+            if v['kind'] == 'parity:odr':
+                open(os.path.join(outdir, 'part2.cpp'), 'w').write('#include "verif_prelude.hpp"\nint avel_verif_part2() { return 0; }\n')
+                open(sh, 'w').write('#!/bin/sh\n# exit 1 if two translation units that include the headers do not link\ncd "%s" && clang++-14 %s -O1 -w -I%s -I%s repro.cpp part2.cpp -o repro.bin 2>&1 | tail -4; '
+                                    '[ -x repro.bin ] && { rm -f repro.bin; echo "builds and links"; exit 0; }; echo REPRODUCES; exit 1\n'
+                                    % (outdir, ' '.join(cfg.flags()), os.path.join(build.HERE, 'cxx'), build.repo_include()))
+            else:
+                open(sh, 'w').write('#!/bin/sh\n# exit 1 if the call does not compile and link against the real headers\ncd "%s" && clang++-14 %s -O1 -w -I%s -I%s repro.cpp -o repro.bin 2>&1 | tail -4; '
                                 '[ -x repro.bin ] && { rm -f repro.bin; echo "builds and links"; exit 0; }; echo REPRODUCES; exit 1\n'
                                 % (outdir, ' '.join(cfg.flags()), os.path.join(build.HERE, 'cxx'), build.repo_include()))
             os.chmod(sh, 0o755)
